@@ -15,7 +15,14 @@ MOD = ["self.orchestrator.registry.gs", "self.orchestrator._rules_discovered", "
 
 
 def one_file(orch, f):
-    """What Orchestrator.lint_file(f) returns from the orchestrator's current state."""
+    """What Linter._lint_path returns for a file target: Orchestrator.lint_files([f]) -- the per-file rules on f followed
+    by finalize() of every rule, exactly what the CLI runs for an explicit file (since the fix recorded in
+    known_findings.json under C10-api-single-file-no-finalize; before it: lint_file(f) without finalize)."""
+    return S_out(orch, [f]) + fin_all(rules_of(S_gs(orch, [f])))
+
+
+def one_file_step(orch, f):
+    """Orchestrator.lint_file(f) alone (no finalize) from the orchestrator's current state."""
     return lf_out(f, orch.registry.gs, orch._rules_discovered, orch.ignore_parser._ignore_cache, orch.project_root, orch.config,
                   orch.ignore_parser.project_root, orch.ignore_parser.repo_patterns)
 
@@ -86,11 +93,9 @@ def reveal_single(o, f):
 
 @lemma(props=["C10"], types=dict(api_orch=OrchT, cli_orch=OrchT, f=PathT), name="api-equals-cli-on-a-single-file")
 def api_equals_cli_single_file(api_orch, cli_orch, f):
-    """Property text: Linter.lint(f) == CLI on f, from identical fresh states, also for cross-file rules.
-    EXPECTED TO FAIL (C10-api-single-file-no-finalize): the API never calls finalize() for a file target."""
+    """Property text: Linter.lint(f) == CLI on f, from identical states, also for cross-file rules."""
     if not same_orch(api_orch, cli_orch) or not fs_is_file(f):
         return True
-    reveal_single(cli_orch, f)
     try:
         a = call(API + "Linter._lint_path", mk(LinterT, orchestrator=api_orch, project_root=api_orch.project_root,
                                                  config=api_orch.config), f)
@@ -100,21 +105,14 @@ def api_equals_cli_single_file(api_orch, cli_orch, f):
     return a == b
 
 
-@lemma(props=["C10"], types=dict(api_orch=OrchT, cli_orch=OrchT, f=PathT), name="api-equals-cli-on-a-single-file-adjusted")
-def api_equals_cli_single_file_adjusted(api_orch, cli_orch, f):
-    """Finding-adjusted: the CLI's answer is the API's answer followed by finalize() of every rule in the state the
-    file left behind -- so the two agree exactly when no rule holds cross-file findings for that file."""
-    if not same_orch(api_orch, cli_orch) or not fs_is_file(f):
-        return True
-    reveal_single(cli_orch, f)
-    st = one_file_state(cli_orch, f)
-    try:
-        a = call(API + "Linter._lint_path", mk(LinterT, orchestrator=api_orch, project_root=api_orch.project_root,
-                                                 config=api_orch.config), f)
-        b = call(O + "Orchestrator.lint_files", cli_orch, [f])
-    except (ValueError, OSError):
-        return True
-    return b == a + fin_all(rules_of(st)) and implies(fin_all(rules_of(st)) == [], a == b)
+@lemma(props=["C10"], types=dict(orch=OrchT, f=PathT), name="single-file-run-is-the-file-then-finalize")
+def single_file_run(orch, f):
+    """Both entry points on one explicit file: the per-file verdicts of lint_file(f) followed by finalize() of every
+    rule in the state the file left behind (so intra-file findings of cross-file rules are reported, and no evidence of
+    the file outlives the call)."""
+    reveal_single(orch, f)
+    st = one_file_state(orch, f)
+    return one_file(orch, f) == one_file_step(orch, f) + fin_all(rules_of(st))
 
 
 @lemma(props=["C10"], types=dict(api_orch=OrchT, cli_orch=OrchT, d=PathT), name="api-equals-cli-on-a-directory")
